@@ -205,6 +205,12 @@ fn place_json<'tcx>(tcx: TyCtxt<'tcx>, body: &Body<'tcx>, p: &Place<'tcx>) -> J 
 fn const_json<'tcx>(tcx: TyCtxt<'tcx>, env: TypingEnv<'tcx>, c: &Const<'tcx>) -> J {
     let t = c.ty();
     let mut o = vec![("k", J::s("const")), ("ty", J::s(ty_str(t)))];
+    if let Const::Unevaluated(uv, _) = c {
+        if let Some(p) = uv.promoted {
+            o.push(("promoted", J::n(p.as_usize() as i128)));
+            return J::obj(o);
+        }
+    }
     match t.kind() {
         ty::FnDef(d, args) => {
             o.push(("fn", J::s(path(tcx, *d))));
@@ -708,6 +714,10 @@ fn extract<'tcx>(tcx: TyCtxt<'tcx>) -> J {
                     o.push(("parent", J::s(path(tcx, tcx.parent(did)))));
                 }
                 o.push(("body", body_json(tcx, did, body)));
+                let proms = tcx.promoted_mir(did);
+                if !proms.is_empty() {
+                    o.push(("promoted", J::Arr(proms.iter().map(|pb| body_json(tcx, did, pb)).collect())));
+                }
                 fns.insert(path(tcx, did), J::obj(o));
             }
             DefKind::Const { .. } | DefKind::AssocConst { .. } => {
